@@ -280,7 +280,7 @@ theorem close_around_core (S : Schema) (hdet : DetS S) (hleaf : LeafOk S) (hfl :
       rw [e, ← hGtoks, getLast?_append_ne _ _ hem]
       exact hl
   -- the replace with the placed and the gap content in place
-  obtain ⟨ffsB, fills, tail, b, hlenB, htfF, htft, hnorm, Y, hY⟩ := close_core S hdet hleaf hfl hcl hts hjc hro hf htg hv hn
+  obtain ⟨ffsB, fills, tail, b, hlenB, htfF, htft, hbt, hnorm, Y, hY⟩ := close_core S hdet hleaf hfl hcl hts hjc hro hf htg hv hn
     hattrs hpf hgpair (by omega) fr0 qtop X hF hqtop mv placed hcf (fappend X Gc) (fappend (fappend L X) Gc)
     (fappend_norm _ _ hXn hnG)
     (by rw [fappend_toks, fappend_toks, fappend_toks, htkL, List.append_assoc])
@@ -302,7 +302,13 @@ theorem close_around_core (S : Schema) (hdet : DetS S) (hleaf : LeafOk S) (hfl :
     · have hXnk : fnormKids X = true := by
         simp only [fnorm, Bool.and_eq_true] at hXn; exact hXn.1
       exact insertInto_leftS_at S Gc X hXnk hX0 ffsB fills tail b hlenB htfF htft
-  simp only [Schema.apply, Bool.false_eq_true, if_false, hsl, Slice.insertAt, hins,
+  -- the position `insert = size(X)` lies inside the slice: every open level is a node of the content
+  have hia : Slice.insertAt S ⟨leftS ffsB fills X ++ tail, ffsB.length, b⟩ (fsize X) Gc
+      = .ok (some ⟨leftS ffsB fills (fappend X Gc) ++ tail, ffsB.length, b⟩) := by
+    have hsz := leftS_size_ge' ffsB fills X hlenB
+    rw [insertAt_of_le (by simp only [Slice.size, fsize_append]; omega)]
+    simp only [Slice.insertAtIn, hins]
+  simp only [Schema.apply, Bool.false_eq_true, if_false, hsl, hia,
     Schema.fromReplace, Schema.replace, hY, Except.map]
   exact ⟨_, rfl⟩
 
